@@ -85,6 +85,8 @@ bool linepart::array::set(long len)
 			lp[i].usr = lp[i].raw = max;
 			len -= max;
 		}
+		// all points visible again
+		lp[i]._cut = lp[i]._trim = 0;
 	}
 	return true;
 }
